@@ -81,6 +81,20 @@ VCLAUSE(sums, 400, 24000, 600000, "operands are non-square, or the two shapes di
 	for(int i = 0; i < m; i++)
 		for(int j = 0; j < n; j++)
 			VCHECK(A[i][j] == a[i][j] && B[i][j] == b[i][j], "operand modified at (" << i << "," << j << ")");
+	// the same object on both sides, and the value of the compound assignment itself
+	{
+		Matrix S(A), D(A), P, Q, Tt(A), X(A), Y(A);
+		VMUST_RETURN("matrix sums with the same object on both sides", S += S; D -= D; P = A + A; Q = A - A; Tt = Tt.Transpose(); Matrix& rx = (X += B); Matrix& ry = (Y -= B); VCHECK(&rx == &X && &ry == &Y, "compound assignment does not return its left operand"));
+		VCHECK((int) Tt.Rows() == n && (int) Tt.Columns() == m, "A = A.Transpose() has shape " << Tt.Rows() << "x" << Tt.Columns());
+		for(int i = 0; i < m; i++)
+			for(int j = 0; j < n; j++)
+			{
+				VCHECK(S[i][j] == 2 * a[i][j] && P[i][j] == 2 * a[i][j], "A += A / A + A at (" << i << "," << j << "): " << S[i][j] << ", " << P[i][j] << " expected " << 2 * a[i][j]);
+				VCHECK(D[i][j] == 0 && Q[i][j] == 0, "A -= A / A - A at (" << i << "," << j << "): " << D[i][j] << ", " << Q[i][j]);
+				VCHECK(Tt[j][i] == a[i][j], "A = A.Transpose() at (" << j << "," << i << ")");
+				VCHECK(X[i][j] == a[i][j] + b[i][j] && Y[i][j] == a[i][j] - b[i][j], "(A += B) / (A -= B) at (" << i << "," << j << ")");
+			}
+	}
 }
 
 VCLAUSE(vector_sums, 100, 12000, 300000, "dimensions differ, or dimension is not 3")
@@ -391,6 +405,21 @@ VCLAUSE(structure, 500, 16000, 400000, "matrix is non-square, or a predicate is 
 		}
 	VCLOSE(c, "norm", norm, (double) sqrtl(ss), 4.0 * (m * n + 2) * EPS * (double) sqrtl(ss), "Frobenius norm");
 	VCHECK((A == A) && (A == Matrix(a)), "operator== not reflexive");
+	{
+		// ... and it tells matrices apart: one perturbed entry, a different shape with the same leading block, the transposed non-square shape
+		Rows b = a;
+		int pi = (int) c.s.range(0, m - 1), pj = (int) c.s.range(0, n - 1);
+		b[(size_t) pi][(size_t) pj] = (b[(size_t) pi][(size_t) pj] == 0) ? 1.0 : std::nextafter(b[(size_t) pi][(size_t) pj], 1e308);
+		bool eq1 = true, eq2 = true, eq3 = true, eq4 = true;
+		Rows wider = a, taller = a;
+		for(auto& r : wider)
+			r.push_back(0.0);
+		taller.push_back(std::vector<double>((size_t) n, 0.0));
+		VMUST_RETURN("operator== on different matrices", eq1 = (A == Matrix(b)); eq2 = (A == Matrix(wider)) || (Matrix(wider) == A); eq3 = (A == Matrix(taller)) || (Matrix(taller) == A); eq4 = (m != n) && (A == T));
+		VCHECK(!eq1, "operator== is true for matrices that differ in entry (" << pi << "," << pj << ") by one unit in the last place");
+		VCHECK(!eq2 && !eq3, "operator== is true for matrices of different shape (" << m << "x" << n << " vs one more column / row of zeros)");
+		VCHECK(!eq4, "operator== is true for a non-square matrix and its transpose");
+	}
 	// Trace
 	if(sq)
 	{
@@ -558,6 +587,16 @@ VCLAUSE(vector_misc, 120, 8000, 200000, "dimension other than 3, or mixed magnit
 		}
 	}
 	VCHECK(V == Vector(a[0]), "operator== not reflexive");
+	{
+		std::vector<double> b = a[0], longer = a[0];
+		size_t pi = (size_t) c.s.range(0, (long) b.size() - 1);
+		b[pi]	  = (b[pi] == 0) ? 1.0 : std::nextafter(b[pi], 1e308);
+		longer.push_back(0.0);
+		bool eq1 = true, eq2 = true;
+		VMUST_RETURN("operator== on different vectors", eq1 = (V == Vector(b)); eq2 = (V == Vector(longer)) || (Vector(longer) == V));
+		VCHECK(!eq1, "operator== is true for vectors that differ in component " << pi << " by one unit in the last place");
+		VCHECK(!eq2, "operator== is true for vectors of different dimension");
+	}
 	int r2 = (int) c.s.range(1, 8);
 	Vector Z(V), Y(V);
 	VMUST_RETURN("Vector Resize/Assign", Z.Resize(r2); Y.Assign(r2, sc));
